@@ -11,9 +11,9 @@ import (
 
 // outcome sets
 const (
-	T = 1
+	T  = 1
 	Fa = 2
-	E = 4
+	E  = 4
 )
 
 func SetStr(s int) string {
@@ -74,6 +74,7 @@ const (
 	StyleQuoted
 	StyleBare
 )
+
 type Not struct{ X any }
 type Bin struct {
 	Or   bool
@@ -745,9 +746,8 @@ func (r *Ref) quant(q *Quant, env []binding) int {
 		return E
 	}
 	if len(n.Items) == 0 {
-		if q.Mode == BindBoth && q.Idx == q.Val {
-			return B2S(q.All) | E // U6
-		}
+		// empty S gives any=false / all=true whatever the binding looks like (the property says so without
+		// exception; the former unspecified cell U6 was withdrawn)
 		return B2S(q.All)
 	}
 	if q.Mode == BindBoth && q.Idx == q.Val {
